@@ -174,6 +174,25 @@ def targeted_recipes():
     out.append({"sys": "robust", "base": "raw", "seed": 26, "id": "tg:index-scaling", "only": ["strings", "lists"],
                 "sections": {"debug_str_offsets": [8, 0, 0, 0, 5, 0, 0, 0, 1, 0, 0, 0], "debug_addr": [12, 0, 0, 0, 5, 0, 8, 0, 1, 2, 3, 4, 5, 6, 7, 8],
                              "debug_rnglists": [12, 0, 0, 0, 5, 0, 8, 0, 1, 0, 0, 0, 4, 0, 0, 0], "debug_loclists": [12, 0, 0, 0, 5, 0, 8, 0, 1, 0, 0, 0, 4, 0, 0, 0]}, "mut": []})
+    # line programs that are fine to read but hit assertions of the writer when converted
+    def line_with(prog, line_base=0xfb, line_range=14, min_inst=1):
+        sec, patch = raw_line()
+        sec = list(sec)
+        sec[10], sec[13], sec[14] = min_inst, line_base, line_range      # fields of the fixed header
+        sec[0:4] = u32(patch[0]["add"] + len(prog))
+        return {"debug_line": sec + prog}
+    end = [0, 1, 1]
+    out.append({"sys": "robust", "base": "raw", "seed": 28, "id": "tg:line-base-positive", "only": ["lines", "convert_line"],
+                "sections": line_with([1] + end, line_base=1), "mut": []})
+    out.append({"sys": "robust", "base": "raw", "seed": 29, "id": "tg:line-range-small", "only": ["lines", "convert_line"],
+                "sections": line_with([1] + end, line_base=0xfb, line_range=3), "mut": []})
+    out.append({"sys": "robust", "base": "raw", "seed": 30, "id": "tg:line-empty-file", "only": ["lines", "convert_line"],
+                "sections": line_with([0, 5, 3, 0, 0, 0, 0, 1] + end), "mut": []})
+    out.append({"sys": "robust", "base": "raw", "seed": 31, "id": "tg:line-misaligned", "only": ["lines", "convert_line"],
+                "sections": line_with([0, 9, 2, 0, 0x10, 0, 0, 0, 0, 0, 0, 1, 9, 3, 0, 1] + end, min_inst=4), "mut": []})
+    # a row that cannot be converted (file index 7 does not exist) after a set_address
+    out.append({"sys": "robust", "base": "raw", "seed": 32, "id": "tg:line-bad-file", "only": ["lines", "convert_line"],
+                "sections": line_with([0, 9, 2, 0, 0x10, 0, 0, 0, 0, 0, 0, 1, 0, 9, 2, 0, 0x20, 0, 0, 0, 0, 0, 0, 4, 7, 1] + end), "mut": []})
     # .debug_cu_index (version 2): 2 slots, both occupied, so a lookup of a third id must stop after 2 probes
     def u64(x):
         return u32(x & 0xffffffff) + u32(x >> 32)
